@@ -275,6 +275,11 @@ class DictList(list):
         other : iterable
             other must contain only unique id's present in the list
         """
+        other = list(other)
+        # look everything up first so that a failure leaves the list untouched
+        positions = [self.index(item) for item in other]
+        if len(set(positions)) != len(positions):
+            raise ValueError("an item is present twice in the items to remove")
         for item in other:
             self.remove(item)
         return self
